@@ -73,14 +73,15 @@ def PkCfg.srFrom (c : PkCfg) (k sr : Nat) : Nat := sr / 2 ^ (min k (c.hw - 1))
 
 /-- Source data in UNALIGNED-DATA-COPY: low `8L` bits from the header residue (first beat) or from the top of
     the previous sink beat, the remaining bits from the bottom of the current sink beat — except on the flush beat
-    (`sink_d.last`), whose upper (padding) lanes stay 0: `If(~sink_d.last, source.data[header_leftover*8:].eq(sink.data))`
+    (`sink_d.last` and not the first copy beat), whose upper (padding) lanes stay 0:
+    `If(~sink_d.last | fsm_from_idle, source.data[header_leftover*8:].eq(sink.data))`
     (fix of C04-packetizer-flush-padding-unstable; before it they followed the sink data lines of a producer that
-    offers nothing). -/
+    offers nothing; the first data beat of a one-beat packet keeps its payload bytes). -/
 def PkCfg.pkUData (c : PkCfg) (s : PkState) (d : Nat) : Nat :=
   let lw := max (8 * c.L) 1
   let low := if s.fromIdle then c.srFrom ((if c.W == 1 then 1 else 2) * c.dw) s.sr
              else s.dData / 2 ^ (min ((c.B - c.L) * 8) (c.dw - 1))
-  low % 2 ^ lw + 2 ^ (8 * c.L) * (if s.dLast then 0 else d % 2 ^ (c.dw - 8 * c.L))
+  low % 2 ^ lw + 2 ^ (8 * c.L) * (if s.dLast && !s.fromIdle then 0 else d % 2 ^ (c.dw - 8 * c.L))
 
 def packetizer (c : PkCfg) : Elem HBeat Nat PkState where
   init := PkState.reset
